@@ -339,6 +339,9 @@ func RunParent(id string, tier Tier, seed int64, exe, cli, verifDir, tmpDir stri
 	if prop.Check != nil {
 		prop.Check(res, tier)
 	}
+	if len(res.Samples) == 0 && len(res.Violations) == 0 {
+		res.Inconc("the run recorded no sample case (evidence would not show what was explored)")
+	}
 
 	findings, err := LoadFindings(filepath.Join(verifDir, "KNOWN_FINDINGS.txt"))
 	if err != nil {
